@@ -301,7 +301,7 @@ def rule_R13_desugar(text):
                 break
             # `for e in slice_var` (by-value iteration of a `&mut [T]` / `&[T]` binding): the elements are only read in the bodies
             # this rule is applied to; a body that assigns through `e` no longer type-checks (-> INCONCLUSIVE)
-            z = re.fullmatch(r'(.+?)\.iter\(\)', hdr)
+            z = re.fullmatch(r'([\w.]+)\.iter\(\)', hdr)
             if z and len(names) == 1:
                 hit = (mt.start(), bo, z.group(1), None, names[0], 'shared')
                 break
